@@ -60,6 +60,21 @@ def h_dba(env):
         seed0 = env.choice("inst_seed", list(range(p["inst_from"], p["inst_to"])))
         spec, diameter = _random_colouring(seed0, int(nv), int(nc))
         p = dict(p, inst_from=seed0, inst_to=seed0 + 1, coloring=True, extra_distance=0)
+    elif p["graph"].startswith("ring"):
+        # a long cycle: a conflict travels round it (odd 2-colour rings are unsatisfiable; 'x' = one variable gets a third colour)
+        _, nv, nc = p["graph"].split("_")
+        nv = int(nv)
+        names = ["x%d" % k for k in range(nv)]
+        cols = [10, 0, 5]
+        vars_ = {n: list(cols[:2]) for n in names}
+        if nc == "x":
+            vars_[names[nv // 2]] = list(cols)
+        elif int(nc) == 3:
+            vars_ = {n: list(cols) for n in names}
+        spec = dict(vars=vars_, cons=[[names[k], names[(k + 1) % nv]] for k in range(nv)])
+        diameter = nv // 2
+        seed0 = env.choice("inst_seed", list(range(p["inst_from"], p["inst_to"])))
+        p = dict(p, inst_from=seed0, inst_to=seed0 + 1, coloring=True, extra_distance=0 if seed0 % 4 else 1, max_steps=6000)
     else:
         spec, diameter = GRAPHS[p["graph"]]
     INF = 10000
@@ -159,6 +174,11 @@ def _shapes(algo):
         for g in ("pair", "chain3", "triangle", "chain4", "star_nary", "rand_4_2", "rand_5_2", "rand_6_3", "rand_5_3"):
             for a in range(0, n, batch):
                 q.append(dict(algo=algo, graph=g, inst_from=a, inst_to=a + batch))
+        if not (prop == "C10" and tier == "quick"):
+            nr = 6 if tier == "quick" else 30
+            for g in ("ring_7_2", "ring_9_x", "ring_8_2", "ring_9_2"):
+                for a in range(0, nr, 3):
+                    q.append(dict(algo=algo, graph=g, inst_from=a, inst_to=a + 3))
         return q
     return f
 
